@@ -124,6 +124,35 @@ func (vc *VC) resolveMods(sc *SpecScope, c *Contract) (targets []ModTarget, whol
 						targets = append(targets, ModTarget{comp: cn, sort: srt, lvl: 0, text: m.Text})
 					})
 					continue
+				case "comp":
+					// comp(T.f): the field f of every object of struct type T (a whole heap component)
+					sel, ok := x.Args[0].(*SSel)
+					if !ok {
+						vc.specFail(sc, "modifies %s: comp(Type.field) expected", m.Text)
+					}
+					T := vc.resolveType(sc, sel.X.String())
+					if T == nil {
+						vc.specFail(sc, "modifies %s: unknown type", m.Text)
+					}
+					idx := findField(T, sel.Name)
+					if len(idx) != 1 {
+						vc.specFail(sc, "modifies %s: no such (direct) field", m.Text)
+					}
+					f := under(T).(*types.Struct).Field(idx[0])
+					vc.leafComps(structCompPrefix(T)+"."+f.Name(), f.Type(), 1, func(cn, srt string) {
+						targets = append(targets, ModTarget{comp: cn, sort: srt, lvl: 0, idx: "*", text: m.Text})
+					})
+					continue
+				case "allelems":
+					// allelems(T): the elements of every slice of T (a whole heap component)
+					T := vc.resolveType(sc, strings.Trim(x.Args[0].String(), "\""))
+					if T == nil {
+						vc.specFail(sc, "modifies %s: unknown type", m.Text)
+					}
+					vc.leafComps(elemCompPrefix(T), T, 2, func(cn, srt string) {
+						targets = append(targets, ModTarget{comp: cn, sort: srt, lvl: 0, idx: "*", text: m.Text})
+					})
+					continue
 				case "ghost":
 					continue
 				}
@@ -144,7 +173,11 @@ func (vc *VC) havocTargets(st *State, targets []ModTarget) {
 		h := vc.heapGet(st, t.comp, t.sort)
 		switch t.lvl {
 		case 0:
-			st.heap[t.comp] = vc.fresh("H_"+t.comp, t.sort)
+			nh := vc.fresh("H_"+t.comp, t.sort)
+			if t.idx == "*" {
+				vc.heapSymWF(nh, t.comp, t.sort, st.alloc)
+			}
+			st.heap[t.comp] = nh
 			st.logWrite(t.comp, "*")
 		case 1:
 			nv := vc.fresh("hv", innerSort(t.sort))
@@ -732,6 +765,15 @@ func (vc *VC) frameGoals(st *State, only map[string]bool) (whole bool, goals map
 			}
 			goal = smtEq(cur, init)
 		default:
+			whole := false
+			for _, ix := range allowed[comp] {
+				if ix == "*" {
+					whole = true
+				}
+			}
+			if whole {
+				continue // the whole component is named by modifies (comp(T.f) / allelems(T))
+			}
 			bn := "r!f"
 			var ex []string
 			for _, ix := range allowed[comp] {
@@ -843,6 +885,24 @@ func sqlVerbCode(s string) int {
 }
 
 func (vc *VC) finishObligations() {
+	for _, ia := range vc.ifaceAsserts {
+		it, ok := under(ia.T).(*types.Interface)
+		if !ok {
+			continue
+		}
+		for _, tag := range sortedKeys(vc.typeTagT) {
+			CT := vc.typeTagT[tag]
+			if isInterface(CT) {
+				continue
+			}
+			is := smtAnd(smtNot(smtEq(ia.val, "0")), smtEq(app("typeof", ia.val), tag))
+			if types.Implements(CT, it) {
+				vc.addAxiom(smtImp(is, ia.ok))
+			} else {
+				vc.addAxiom(smtImp(is, smtNot(ia.ok)))
+			}
+		}
+	}
 	if _, ok := vc.decls["sqlverb"]; ok {
 		for _, lit := range sortedKeys(vc.strlits) {
 			vc.addAxiom(smtEq(app("sqlverb", vc.strlits[lit]), fmt.Sprint(sqlVerbCode(lit))))
